@@ -24,6 +24,42 @@ inductive Region where
   | chunkData | chunkSig | trailerSig | trailerCksum | other
   deriving Repr, DecidableEq
 
+/-- the bytes after the zero-length chunk's header line of a well-formed body: the trailer section -/
+def trailerSectionOf : Nat → Bytes → Option Bytes
+  | 0, _ => none
+  | fuel + 1, body =>
+    match cutCRLFAux body with
+    | none => none
+    | some (line, rest) =>
+      let hexLen := match splitAtSub sigSep line with
+        | some (a, _) => a
+        | none => line
+      match parseHex64 hexLen with
+      | none => none
+      | some n => if n == 0 then some rest else trailerSectionOf fuel (rest.drop (n + 2))
+where
+  cutCRLFAux : Bytes → Option (Bytes × Bytes)
+    | [] => none
+    | [_] => none
+    | a :: b :: t =>
+      if a == 13 && b == 10 then some ([], t)
+      else match cutCRLFAux (b :: t) with
+        | none => none
+        | some (l, r) => some (a :: l, r)
+
+/-- what the trailer section says, read the way the server reads it (`readTrailerSection`), with the
+checksum line normalised as `validateTrailerChecksum` compares it: (lower-case trimmed name,
+trimmed value), and the trailer signature -/
+def trailerMeaning (body : Bytes) : Option ((Bytes × Bytes) × Bytes) :=
+  match trailerSectionOf (body.length + 2) body with
+  | none => none
+  | some tail =>
+    let (ck, sg) := readTrailerSection tail
+    let ckn := match cutColon ck with
+      | some (n, v) => (lower (trimSpace n), trimSpace v)
+      | none => (lower (trimSpace ck), [])
+    some (ckn, sg)
+
 def Region.name : Region → String
   | .chunkData => "chunk-data" | .chunkSig => "chunk-signature" | .trailerSig => "trailer-signature"
   | .trailerCksum => "trailer-checksum" | .other => "other-byte"
@@ -175,16 +211,24 @@ def judgeCase (_k : Nat) (lines : List String) : Verdict := Id.run do
             else s!"C30.{who}-stored-differs-from-payload"
           vio := vio ++ [(sg, s!"{rc.label}:mode={rc.mode},status={rc.obs.status},payload={rc.payload.length}B,stored={stored.map (·.length)}")]
       else
-        let region := match firstDiff baseBody r.body 0 with
+        let region0 := match firstDiff baseBody r.body 0 with
           | some i => regionLoop (baseBody.length + 2) baseBody 0 i
           | none => Region.other
+        -- a change outside the chunks is judged by what it does to the *meaning* of the trailer
+        -- section (renamed, blanked or re-cased lines included), not by where the byte sits
+        let (sigChanged, ckChanged) := match trailerMeaning baseBody, trailerMeaning r.body with
+          | some (c0, s0), some (c1, s1) => (s0 != s1, c0 != c1)
+          | _, _ => (false, false)
+        let region : Region :=
+          if region0 == .chunkData || region0 == .chunkSig then region0
+          else if sigChanged then .trailerSig else if ckChanged then .trailerCksum else .other
         stats := addStats stats [(s!"mutant_{region.name}", 1)]
         let keyed := authOn && !anonymous     -- signatures can be verified only with the credentials
         let mustFail := match region with
           | .chunkData => (keyed && signedMode) || hasCksum
           | .chunkSig => keyed && signedMode
-          | .trailerSig => keyed && sha == streamingPayloadTrailer
-          | .trailerCksum => hasCksum
+          | .trailerSig => (keyed && sha == streamingPayloadTrailer) || (ckChanged && hasCksum)
+          | .trailerCksum => hasCksum || (keyed && sha == streamingPayloadTrailer)
           | .other => false
         if mustFail then
           stats := addStats stats [("mutants_that_must_fail", 1)]
